@@ -1118,6 +1118,24 @@ def sweep_typedtuple(ctx, rng, t):
     if got != (typ, sval):
         ctx.violation('C03/typedtuple-parse-differs', 'parse_from_string(t.get_as_string()) gives the same type and '
                       'str(value)', dict(w, decoded=short(list(got))))
+        return
+    # a text the decoder refuses (unknown type word / no separator) leaves the tuple what it was: its encoding still decodes
+    ctx.count('tt:rejected-parse-leaves-value')
+    for bad in ('no_such_type_word:' + sval, 'noseparator'):
+        try:
+            v.parse_from_string(bad)
+            ctx.count('tt:bad-text-accepted')
+            return
+        except Exception:
+            pass
+        try:
+            now = (v.get_type(), str(v.get_val()), v.get_as_string())
+        except Exception as e:
+            now = ('<raises>', f'{type(e).__name__}: {e}'[:200], None)
+        if now != (typ, sval, s):
+            ctx.violation('C03/typedtuple-changed-by-rejected-parse', 'a tuple keeps its value when parse_from_string refuses a text '
+                          '(its encoding must still decode to an equal tuple)', dict(w, rejected_text=short(bad), now=short(list(now))))
+            return
 
 
 # ----------------------------------------------------------------------------------------------
